@@ -93,7 +93,7 @@ Definition mode (l : label) (_ : unit) : lmode :=
 Definition lthr (l : label) : Z :=
   match l with
   | LLock t | LUnlock t | LReg t _ _ _ _ _ _ | LUnreg t _ _ | LSigEnter t _ _ | LSigDfl t _ | LPost t _
-  | LSigExit t | LRead t _ | LClear t _ | LHandler t _ | LBlock t => t
+  | LSigExit t | LRead t _ | LClear t _ | LHandler t _ | LBlock t | LMask t _ | LSaMask t _ _ => t
   end.
 
 Definition actor (_ : state) (l : label) : option Z := Some (lthr l).
@@ -104,6 +104,8 @@ Definition fp (s : state) (l : label) : footprint var :=
   match l with
   | LLock _ => [(VProcTree, false)]
   | LUnlock _ | LSigExit _ | LHandler _ _ | LBlock _ => []
+  | LMask _ _ => []                        (* the signal mask is private to the thread *)
+  | LSaMask _ _ _ => [(VDisp, true)]       (* the sigaction call inside iv_signal_register *)
   | LReg t id _ _ thisthr _ _ =>
       [(VOwnerPid, true); (VTotal, true); (VDisp, true); (VActive id, true); (VCnt id, true);
        (if thisthr then VThrTree t else VProcTree, true)]
@@ -220,7 +222,7 @@ Qed.
 
 Lemma J_reg : forall s t nr tot dsp, Inv s -> J s -> holds s t = true -> is_idle (stg s t) = true ->
   find (i_id nr) (regs s) = None ->
-  J {| regs := insert nr (regs s); total := tot; disp := dsp; owner := true; lock := lock s; stg := stg s |}.
+  J {| regs := insert nr (regs s); total := tot; disp := dsp; owner := true; lock := lock s; stg := stg s; masked := masked s |}.
 Proof.
   intros s t nr tot dsp [HR HL] HJ Hh Hi Hf u. simpl. specialize (HJ u). specialize (HL u).
   assert (FI : forall id', find id' (insert nr (regs s)) = if i_id nr =? id' then Some nr else find id' (regs s))
@@ -236,7 +238,8 @@ Qed.
 Lemma J_unreg : forall s t id r tot dsp own (c : bool), Inv s -> J s -> is_idle (stg s t) = true ->
   find id (regs s) = Some r -> i_thr r = t ->
   J {| regs := remove id (regs s); total := tot; disp := dsp; owner := own; lock := lock s;
-       stg := if c then upd (stg s) t (SUnreg (handoff_wake true r (remove id (regs s)))) else stg s |}.
+       stg := if c then upd (stg s) t (SUnreg (handoff_wake true r (remove id (regs s)))) else stg s;
+       masked := masked s |}.
 Proof.
   intros s t id r tot dsp own c [HR HL] HJ Hi Hf Ht. pose proof (inv_nodup s HR) as Hnd.
   assert (B0 : forall u, pok (stg s u) u (remove id (regs s))).
@@ -293,6 +296,10 @@ Proof.
   - (* LHandler *)
     dmatch H; inversion H; subst; clear H. apply J_regs; [exact HJ|apply ss_upd_rec; apply keeps_idle].
   - (* LBlock *)
+    dmatch H; inversion H; subst; exact HJ.
+  - (* LMask: regs and stages untouched *)
+    dmatch H; inversion H; subst; exact HJ.
+  - (* LSaMask *)
     dmatch H; inversion H; subst; exact HJ.
 Qed.
 
@@ -377,6 +384,8 @@ Proof.
     eapply heldP; eauto; reflexivity.
   - insplit Hin.
   - insplit Hin.
+  - (* LMask *) insplit Hin.
+  - (* LSaMask: VDisp is Extern *) insplit Hin. exact I.
 Qed.
 
 Lemma acq_free : forall s l s' k, step s l = Some s' -> mode l k = Acq -> holder s k = None.
@@ -534,6 +543,8 @@ Proof.
     simpl in H. dmatch H; inversion H; subst; clear H.
     apply writes_sound_upd; [apply keeps_idle|left; intro; reflexivity|left; intro; reflexivity].
   - simpl in H. dmatch H; inversion H; subst; same_state v.
+  - (* LMask *) simpl in H. dmatch H; inversion H; subst; same_state v.
+  - (* LSaMask *) simpl in H. dmatch H; inversion H; subst; same_state v.
 Qed.
 
 (* ---- the C14 statements for iv_signal ---- *)
@@ -593,11 +604,11 @@ Qed.
    both lock calls are enabled; once thread 1 has it, its write of ->active is enabled and thread
    0's conflicting clear and lock call are refused *)
 Definition ex_prefix : list label :=
-  [LLock 0; LReg 0 1 10 false false 1000 (Some true); LUnlock 0;
-   LSigEnter 1 10 false; LLock 1; LPost 1 1; LUnlock 1; LSigExit 1; LRead 0 1; LSigEnter 1 10 false].
+  [LMask 0 true; LLock 0; LSaMask 0 10 true; LReg 0 1 10 false false 1000 (Some true); LUnlock 0; LMask 0 false;
+   LSigEnter 1 10 false; LLock 1; LPost 1 1; LUnlock 1; LSigExit 1; LRead 0 1; LMask 0 true; LSigEnter 1 10 false].
 Definition ex_trace : list label :=
-  ex_prefix ++ [LLock 1; LPost 1 1; LUnlock 1; LSigExit 1; LLock 0; LClear 0 1; LUnlock 0; LHandler 0 1;
-                LRead 0 1; LLock 0; LClear 0 1; LUnlock 0; LHandler 0 1; LBlock 0].
+  ex_prefix ++ [LLock 1; LPost 1 1; LUnlock 1; LSigExit 1; LLock 0; LClear 0 1; LUnlock 0; LMask 0 false; LHandler 0 1;
+                LRead 0 1; LMask 0 true; LLock 0; LClear 0 1; LUnlock 0; LMask 0 false; LHandler 0 1; LBlock 0].
 
 Lemma signal_nonvacuous :
   accepts ex_trace = true /\
